@@ -456,7 +456,12 @@ def run_check(pid, module, argv):
             answers = run_driver([x[0] for x in ctx.ops])
             for (o, exp, inp, label, norm), ans in zip(ctx.ops, answers):
                 if "err" in ans:
-                    raise LeanError(f"driver rejected op {label}: {ans} :: {canon(o)[:500]}")
+                    # the model driver cannot read the operation: on the unchanged tree this never happens (runs are
+                    # deterministic), so what the code returned (and the harness passed on as part of the operation) has
+                    # another shape now — a broken correspondence, not a harness fault
+                    disagreements.append({"op": label, "input": inp, "request": o, "impl_output": exp,
+                                          "model_output": {"driver-rejected-the-operation": ans}})
+                    continue
                 if norm is not None:
                     ans = norm(ans)
                 if canon(ans) != canon(exp):
